@@ -7,6 +7,7 @@ use crate::mock::*;
 use crate::pgcat::{Cfg, MirrorCfg, PoolCfg, StartOpts};
 use crate::proto::{self, Msg};
 use crate::report::Report;
+use crate::sql::tag;
 use crate::util::{printable, sleep_ms, Rng};
 use crate::wire::{Conn, StartupOpts};
 use crate::wl::{run_step, Outcome, StepResult};
@@ -14,6 +15,8 @@ use serde_json::json;
 use std::collections::BTreeMap;
 use std::sync::atomic::{AtomicBool, Ordering};
 use std::sync::Arc;
+
+static EPILOGUES_LEFT: std::sync::atomic::AtomicI64 = std::sync::atomic::AtomicI64::new(0);
 
 struct World {
     cell: Cell,
@@ -222,6 +225,40 @@ fn scenario(seed: u64, rep: &Report, isolated: bool, nominated: &std::sync::Mute
     }
     let rb = rb?;
     sleep_ms(150);
+    // ---- epilogue (one scenario in four): a mirror that stops reading for longer than any internal
+    // timeout while a request much larger than the socket buffers is in flight, then resumes; the
+    // requests that follow on the same connections must still arrive as whole messages
+    // (at most EPILOGUE_BUDGET of them per run: each moves tens of MiB and would otherwise load the
+    // machine enough to disturb the latency-sensitive parts of the neighbouring cells)
+    if rng.chance(1, 4) && EPILOGUES_LEFT.fetch_update(Ordering::SeqCst, Ordering::SeqCst, |v| if v > 0 { Some(v - 1) } else { None }).is_ok() {
+        let mut c = Conn::connect(&wb.cell.addr(), &StartupOpts::new(USER, "db", PASS).app("cz")).map_err(|e| format!("cz connect: {}", e))?;
+        let _ = c.query(&format!("SELECT 1 {}", tag("cz", "cz.r0", "rows=1")), 10_000);
+        for (m, _) in &wb.mirrors {
+            wb.cell.mocks[*m].ctl.q_hang.store(true, Ordering::SeqCst);
+        }
+        // the mirror sessions hang on this one (and stop reading their sockets) ...
+        let _ = c.query(&format!("SELECT 1 {}", tag("cz", "cz.r1", "rows=1")), 10_000);
+        // ... while this one (16-24 MiB) is written to them
+        let pad = "x".repeat((12 << 20) + rng.below(4 << 20) as usize);
+        let t0 = crate::util::now_ns();
+        let big = c.query(&format!("SELECT 1 {} -- {}", tag("cz", "cz.r2", "rows=1"), pad), 30_000);
+        let big_us = (crate::util::now_ns() - t0) / 1000;
+        rep.max("max_latency_us_big_request_with_stalled_mirror", big_us);
+        if big.is_err() {
+            rep.violation("C20|client_request_failed_while_mirror_stalled", "a 12+ MiB request failed while the mirror had stopped reading", json!({"seed": seed}));
+        }
+        sleep_ms(1500 + rng.below(1500));
+        for (m, _) in &wb.mirrors {
+            wb.cell.mocks[*m].ctl.q_hang.store(false, Ordering::SeqCst);
+        }
+        for k in 3..6 {
+            let _ = c.query(&format!("SELECT 1 {}", tag("cz", &format!("cz.r{}", k), "rows=1")), 10_000);
+            sleep_ms(30);
+        }
+        sleep_ms(400);
+        c.terminate();
+        rep.count("stalled_mirror_big_request_epilogues", 1);
+    }
     // ---- run A: same program, no mirrors
     let wa = build(false, with_replica, &[], prewarm)?;
     let ra = run_program(&wa.cell.addr(), seed, clients, reqs)?;
@@ -301,6 +338,48 @@ fn scenario(seed: u64, rep: &Report, isolated: bool, nominated: &std::sync::Mute
             by_sess.entry((*b, *sid)).or_default().push(bytes.clone());
         }
     }
+    // a request whose body never completed at a mirror, but whose received part already contains
+    // whole later requests of the mirrored server: the request was torn and the connection kept
+    for (mi, tgt) in &wb.mirrors {
+        let target_mock = if *tgt == 0 { wb.primary } else { wb.replica.unwrap_or(wb.primary) };
+        let partials: Vec<(u64, u8, usize, Vec<u8>)> = wb.cell.mocks[*mi]
+            .ctl
+            .sessions
+            .lock()
+            .unwrap()
+            .values()
+            .filter_map(|si| si.partial.lock().unwrap().as_ref().map(|p| (si.sid, p.0, p.1, p.2.clone())))
+            .collect();
+        for (sid, typ, declared, got) in partials {
+            rep.count("incomplete_requests_pending_at_mirrors", 1);
+            let later: Vec<&Arc<Vec<u8>>> = by_sess.iter().filter(|(k, _)| k.0 == target_mock).flat_map(|(_, v)| v.iter()).filter(|m| m.len() >= 24 && m.len() < 4096).collect();
+            let find_sub = |hay: &[u8], needle: &[u8]| -> bool {
+                let first = needle[0];
+                let mut i = 0;
+                while i + needle.len() <= hay.len() {
+                    match hay[i..hay.len() - needle.len() + 1].iter().position(|b| *b == first) {
+                        None => return false,
+                        Some(p) => {
+                            let at = i + p;
+                            if &hay[at..at + needle.len()] == needle {
+                                return true;
+                            }
+                            i = at + 1;
+                        }
+                    }
+                }
+                false
+            };
+            let embedded = later.iter().find(|m| find_sub(&got, &m[..]));
+            if let Some(m) = embedded {
+                rep.violation(
+                    "C20|mirror_received_torn_request_followed_by_other_requests",
+                    &format!("{} sid={}: a {:?} message declared {} body bytes, {} arrived, and inside them is the whole later request {}", labels[*mi], sid, typ as char, declared, got.len(), printable(m, 80)),
+                    json!({"seed": seed, "declared": declared, "received": got.len()}),
+                );
+            }
+        }
+    }
     for (mi, tgt) in &wb.mirrors {
         let target_mock = if *tgt == 0 { wb.primary } else { wb.replica.unwrap_or(wb.primary) };
         let sources: Vec<&Vec<Arc<Vec<u8>>>> = by_sess.iter().filter(|(k, _)| k.0 == target_mock).map(|(_, v)| v).collect();
@@ -361,7 +440,7 @@ pub fn run(tier: &str) -> i32 {
         "C20",
         tier,
         "fault_enumeration",
-        "scenario = the same seeded client program (C03's request mix) run once with 1-2 mirrors under a random mirror fault schedule {down, accept-and-hang, accept-and-close, hang on query, slow, close/hang mid-reply, error replies} and once without mirrors; oracle = differential comparison of client-visible replies (backend session id masked) and per-request latency, plus whole-message in-order subsequence embedding of every mirror session's inbound traffic into one session of the mirrored server; distinct = scenario seeds",
+        "scenario = the same seeded client program (C03's request mix) run once with 1-2 mirrors under a random mirror fault schedule {down, accept-and-hang, accept-and-close, hang on query, slow, close/hang mid-reply, error replies, trickling} and once without mirrors, half of the scenarios with the prewarmer plugin on, a few with a mirror that stops reading for seconds while a 12-16 MiB request is in flight; oracle = differential comparison of client-visible replies (backend session id masked) and per-request latency, plus whole-message in-order subsequence embedding of every mirror session's inbound traffic into one session of the mirrored server; distinct = scenario seeds",
     );
     rep.assume("latency criterion: with-mirror latency <= 10 x no-mirror latency + 250 ms per request");
     let thorough = rep.thorough();
@@ -373,6 +452,7 @@ pub fn run(tier: &str) -> i32 {
     }
     let n = seeds.len();
     let nominated = std::sync::Mutex::new(vec![]);
+    EPILOGUES_LEFT.store(if thorough { 40 } else { 4 }, Ordering::SeqCst);
     run_parallel(n, workers(), |i| {
         rep.eval(1);
         if let Err(e) = scenario(seeds[i], &rep, false, &nominated) {
